@@ -71,4 +71,436 @@ theorem u32_test (a : Int64) (h1 : -2147483648 ≤ a.toInt) (h2 : a.toInt < 2147
     omega
   rw [Bool.eq_iff_iff]; simp only [decide_eq_true_eq]; exact this
 
+/-! ## 1. The control flow of `bid128_scalbn_clear_status`, scenario by scenario -/
+
+theorem very_fast_eq (sgn : UInt64) (e : Int32) (c : U128) :
+    bid_get_BID128_very_fast sgn e c = .ok ⟨c.w0, sgn ||| UInt64.ofInt (toI e) <<< 49 ||| c.w1⟩ := by
+  unfold bid_get_BID128_very_fast; rfl
+
+/-- the status word of the zero / infinity / NaN front end -/
+def frontFlags (x : U128) : UInt32 :=
+  if (x.w1 &&& c_SNAN_MASK64 == c_SNAN_MASK64) = true then 0 ||| c_StatusFlags_BID_INVALID_EXCEPTION else 0
+
+/-- S1: infinity or NaN (`ret = 0`, coefficient high word non-zero): the unpacked words, quieted -/
+theorem scn_special (x : U128) (n : Int32) (m : RoundingMode) (sg : UInt64) (ex : Int32) (co : U128)
+    (hu : unpack_BID128_value 0 0 default x = .ok (0, sg, ex, co)) (hco : (co.w1 == 0) = false) :
+    bid128_scalbn_clear_status x n m 0 = .ok (⟨co.w0, co.w1 &&& c_QUIET_MASK64⟩, frontFlags x) := by
+  unfold bid128_scalbn_clear_status frontFlags
+  simp only [hu, hco, bind, Except.bind, pure, Except.pure, set_status_flags, very_fast_eq, ok_ite, ite_prod, ite_u128,
+    ite_self, beq_self_eq_true, if_true, Bool.false_eq_true, if_false]
+
+/-- S2: a zero (`ret = 0`, coefficient zero): the exponent sum clamped into `0 … 12287` -/
+theorem scn_zero (x : U128) (n : Int32) (m : RoundingMode) (sg : UInt64) (ex : Int32) (co : U128)
+    (hu : unpack_BID128_value 0 0 default x = .ok (0, sg, ex, co)) (hco : (co.w1 == 0) = true) :
+    bid128_scalbn_clear_status x n m 0 = .ok (⟨co.w0, sg ||| UInt64.ofInt (toI (Int32.ofInt
+        (if ex.toInt + n.toInt < 0 then 0 else if ex.toInt + n.toInt > 12287 then 12287 else ex.toInt + n.toInt))) <<< 49
+        ||| co.w1⟩, frontFlags x) := by
+  unfold bid128_scalbn_clear_status frontFlags
+  have h0 : decide ((0 : Int64) > Int64.ofInt (toI c_DECIMAL_MAX_EXPON_128)) = false := by decide
+  have hmax : Int32.ofInt (toI (Int64.ofInt (toI c_DECIMAL_MAX_EXPON_128))) = Int32.ofInt 12287 := by decide
+  have hz : Int32.ofInt (toI (0 : Int64)) = Int32.ofInt 0 := by decide
+  have hs : Int32.ofInt (toI (Int64.ofInt (toI ex) + Int64.ofInt (toI n))) = Int32.ofInt (ex.toInt + n.toInt) := by
+    simp only [toI]; rw [← e64_toInt]; rfl
+  simp only [hu, hco, bind, Except.bind, pure, Except.pure, set_status_flags, very_fast_eq, ok_ite, ite_prod, ite_u128,
+    ite_self, beq_self_eq_true, if_true, Bool.false_eq_true, if_false, d_lt0, d_gtmax, e64_toInt, h0, hmax, hz, hs]
+  by_cases h1 : ex.toInt + n.toInt < 0
+  · simp only [h1, decide_true, if_true, toI]
+  · by_cases h2 : ex.toInt + n.toInt > 12287
+    · simp only [h1, h2, decide_true, decide_false, if_true, Bool.false_eq_true, if_false, toI]
+    · simp only [h1, h2, decide_false, Bool.false_eq_true, if_false, toI]
+
+/-- the test `CX < 10^33` on the words -/
+def lt1033 (c : U128) : Bool :=
+  decide (c.w1 < 54210108624275) || c.w1 == 54210108624275 && decide (c.w0 < 4089650035136921600)
+
+/-- S3: non-zero coefficient, exponent sum in range: packed as it is -/
+theorem scn_in_range (x : U128) (n : Int32) (m : RoundingMode) (r sg : UInt64) (ex : Int32) (co : U128)
+    (hu : unpack_BID128_value 0 0 default x = .ok (r, sg, ex, co)) (hr : (r == 0) = false)
+    (hex : 0 ≤ ex.toInt ∧ ex.toInt ≤ 12287) (h0 : 0 ≤ ex.toInt + n.toInt) (h1 : ex.toInt + n.toInt ≤ 12287) :
+    bid128_scalbn_clear_status x n m 0
+      = .ok (⟨co.w0, sg ||| UInt64.ofInt (toI (Int32.ofInt (ex.toInt + n.toInt))) <<< 49 ||| co.w1⟩, 0) := by
+  unfold bid128_scalbn_clear_status
+  have hs : Int32.ofInt (toI (Int64.ofInt (toI ex) + Int64.ofInt (toI n))) = Int32.ofInt (ex.toInt + n.toInt) := by
+    simp only [toI]; rw [← e64_toInt]; rfl
+  have a1 := n.toInt_lt; have a2 := n.le_toInt
+  have ht := u32_test (Int64.ofInt (toI ex) + Int64.ofInt (toI n)) (by rw [e64_toInt]; omega) (by rw [e64_toInt]; omega)
+  rw [e64_toInt] at ht
+  have ht' : decide (UInt32.ofInt (toI (Int32.ofInt (toI (Int64.ofInt (toI ex) + Int64.ofInt (toI n)))))
+      ≤ UInt32.ofInt (toI c_DECIMAL_MAX_EXPON_128)) = true := by
+    rw [ht, decide_eq_true_eq]; exact ⟨h0, h1⟩
+  rw [hs] at ht'
+  simp only [hu, hr, ht', bind, Except.bind, pure, Except.pure, set_status_flags, very_fast_eq, Bool.false_eq_true, if_false,
+    if_true, hs]
+
+/-- S4: non-zero coefficient, negative exponent sum: `bid_get_BID128` with the sum -/
+theorem scn_negative (x : U128) (n : Int32) (m : RoundingMode) (r sg : UInt64) (ex : Int32) (co : U128)
+    (hu : unpack_BID128_value 0 0 default x = .ok (r, sg, ex, co)) (hr : (r == 0) = false)
+    (hex : 0 ≤ ex.toInt ∧ ex.toInt ≤ 12287) (h0 : ex.toInt + n.toInt < 0) :
+    bid128_scalbn_clear_status x n m 0 = bid_get_BID128 sg (Int32.ofInt (ex.toInt + n.toInt)) co m 0 := by
+  unfold bid128_scalbn_clear_status
+  have hs : Int32.ofInt (toI (Int64.ofInt (toI ex) + Int64.ofInt (toI n))) = Int32.ofInt (ex.toInt + n.toInt) := by
+    simp only [toI]; rw [← e64_toInt]; rfl
+  have a1 := n.toInt_lt; have a2 := n.le_toInt
+  have ht := u32_test (Int64.ofInt (toI ex) + Int64.ofInt (toI n)) (by rw [e64_toInt]; omega) (by rw [e64_toInt]; omega)
+  rw [e64_toInt] at ht
+  have ht' : decide (UInt32.ofInt (toI (Int32.ofInt (toI (Int64.ofInt (toI ex) + Int64.ofInt (toI n)))))
+      ≤ UInt32.ofInt (toI c_DECIMAL_MAX_EXPON_128)) = false := by
+    rw [ht, decide_eq_false_iff_not]; omega
+  rw [hs] at ht'
+  have hg : decide (Int64.ofInt (toI ex) + Int64.ofInt (toI n) > Int64.ofInt (toI c_DECIMAL_MAX_EXPON_128)) = false := by
+    rw [d_gtmax, e64_toInt, decide_eq_false_iff_not]; omega
+  simp only [hu, hr, ht', hg, bind, Except.bind, pure, Except.pure, set_status_flags, very_fast_eq, Bool.false_eq_true,
+    if_false, if_true, hs]
+  cases bid_get_BID128 sg (Int32.ofInt (ex.toInt + n.toInt)) co m 0 <;> rfl
+
+/-- S5: non-zero 34-digit coefficient, exponent sum above the range: `bid_get_BID128` with the exponent `0x7fffffff` -/
+theorem scn_over_full (x : U128) (n : Int32) (m : RoundingMode) (r sg : UInt64) (ex : Int32) (co : U128)
+    (hu : unpack_BID128_value 0 0 default x = .ok (r, sg, ex, co)) (hr : (r == 0) = false)
+    (hex : 0 ≤ ex.toInt ∧ ex.toInt ≤ 12287) (h0 : ex.toInt + n.toInt > 12287) (hc : lt1033 co = false) :
+    bid128_scalbn_clear_status x n m 0 = bid_get_BID128 sg 2147483647 co m 0 := by
+  unfold bid128_scalbn_clear_status
+  have a1 := n.toInt_lt; have a2 := n.le_toInt
+  have ht := u32_test (Int64.ofInt (toI ex) + Int64.ofInt (toI n)) (by rw [e64_toInt]; omega) (by rw [e64_toInt]; omega)
+  rw [e64_toInt] at ht
+  have ht' : decide (UInt32.ofInt (toI (Int32.ofInt (toI (Int64.ofInt (toI ex) + Int64.ofInt (toI n)))))
+      ≤ UInt32.ofInt (toI c_DECIMAL_MAX_EXPON_128)) = false := by
+    rw [ht, decide_eq_false_iff_not]; omega
+  have hg : decide (Int64.ofInt (toI ex) + Int64.ofInt (toI n) > Int64.ofInt (toI c_DECIMAL_MAX_EXPON_128)) = true := by
+    rw [d_gtmax, e64_toInt, decide_eq_true_eq]; omega
+  have hl : decide (Int64.ofInt (toI ex) + Int64.ofInt (toI n) ≤ Int64.ofInt (toI c_DECIMAL_MAX_EXPON_128)) = false := by
+    rw [d_lemax, e64_toInt, decide_eq_false_iff_not]; omega
+  unfold lt1033 at hc
+  simp only [hu, hr, ht', hg, hl, hc, bind, Except.bind, pure, Except.pure, set_status_flags, very_fast_eq,
+    Bool.false_eq_true, if_false, if_true]
+  cases bid_get_BID128 sg 2147483647 co m 0 <;> rfl
+
+/-- `__add_128_128` as a function -/
+def add128U (a b : U128) : U128 :=
+  ⟨b.w0 + a.w0, if decide (b.w0 + a.w0 < b.w0) = true then a.w1 + b.w1 + 1 else a.w1 + b.w1⟩
+theorem add_128_128_eq (a b : U128) : add_128_128 a b = .ok (add128U a b) := by
+  unfold add_128_128 add128U
+  simp only [bind, Except.bind, pure, Except.pure]
+  split <;> rfl
+
+/-- `CX * 10` by shifts and an add, as the padding loop of `bid128_scalbn` does it -/
+def times10S (c : U128) : U128 :=
+  add128U { w0 := c.w0 <<< 1, w1 := c.w1 <<< 1 ||| c.w0 >>> 63 } { w0 := c.w0 <<< 3, w1 := c.w1 <<< 3 ||| c.w0 >>> 61 }
+
+theorem pr_add128U (a b : U128) : pr (add128U a b) = PackH.add_128_128 (pr a) (pr b) := by
+  obtain ⟨r, h, e⟩ := add_128_128_bridge a b
+  rw [add_128_128_eq] at h
+  injection h with h
+  rw [h]; exact e
+
+/-- the shift-and-add multiplication by ten is exact below 10^34 -/
+theorem times10S_val (c : U128) (h : bitsOf c < 10 ^ 34) : bitsOf (times10S c) = 10 * bitsOf c := by
+  rw [bitsOf_eq] at h
+  obtain ⟨d0, d1, hd0, hd1, hv, heq⟩ := times10_sticky c.w0.toNat c.w1.toNat 0 c.w0.toNat_lt c.w1.toNat_lt h
+  simp only [ne_eq, not_true_eq_false, if_false, Nat.add_zero] at hv heq
+  have hp : pr (times10S c) = (d0, d1) := by
+    rw [← heq]; unfold times10S; rw [pr_add128U]
+    simp only [pr, UInt64.toNat_or, shl1, shl3, shr63, shr61]
+  rw [bitsOf_eq (times10S c), bitsOf_eq c, ← hv]
+  have h1 : (times10S c).w0.toNat = d0 := congrArg Prod.fst hp
+  have h2 : (times10S c).w1.toNat = d1 := congrArg Prod.snd hp
+  rw [h1, h2]
+
+theorem lt1033_iff (c : U128) : lt1033 c = decide (bitsOf c < 10 ^ 33) := by
+  unfold lt1033
+  have a : (54210108624275 : UInt64).toNat = 54210108624275 := by decide
+  have b : (4089650035136921600 : UInt64).toNat = 4089650035136921600 := by decide
+  rw [u64_beq, Bool.eq_iff_iff]
+  simp only [Bool.or_eq_true, Bool.and_eq_true, decide_eq_true_eq, UInt64.lt_iff_toNat_lt, beq_iff_eq, a, b]
+  have := c.w0.toNat_lt
+  unfold bitsOf; omega
+
+/-! ### the padding loop -/
+
+/-- a `for _ in [0:n]` loop standing for a `loop { …; if c { break } }` -/
+def doIter {σ} (brk : σ → Bool) (g h : σ → σ) : Nat → σ → σ
+  | 0, s => s
+  | k + 1, s => if brk s then g s else doIter brk g h k (h s)
+
+theorem forIn_list_dowhile {σ α} (l : List α) (f : α → σ → Except String (ForInStep σ)) (brk : σ → Bool) (g h : σ → σ)
+    (hf : ∀ x s, f x s = .ok (if brk s then ForInStep.done (g s) else ForInStep.yield (h s))) :
+    ∀ s, forIn l s f = .ok (doIter brk g h l.length s) := by
+  induction l with
+  | nil => intro s; rfl
+  | cons a t ih =>
+    intro s
+    rw [List.forIn_cons, hf]
+    simp only [bind, Except.bind, List.length_cons, doIter]
+    by_cases hb : brk s
+    · simp only [hb, if_true]; rfl
+    · simp only [hb, Bool.false_eq_true, if_false]; exact ih _
+
+theorem forIn_range_dowhile {σ} (n : Nat) (f : Nat → σ → Except String (ForInStep σ)) (brk : σ → Bool) (g h : σ → σ)
+    (hf : ∀ x s, f x s = .ok (if brk s then ForInStep.done (g s) else ForInStep.yield (h s))) (s : σ) :
+    forIn [:n] s f = .ok (doIter brk g h n s) := by
+  rw [Std.Legacy.Range.forIn_eq_forIn_range', forIn_list_dowhile _ f brk g h hf]
+  simp [Std.Legacy.Range.size]
+
+/-- the state of the padding loop: `CX, CX2, CBID_X8, exp64, exponent_x, brk` -/
+abbrev LState := U128 × U128 × U128 × Int64 × Int32 × Bool
+
+def lBrk (s : LState) : Bool :=
+  !(lt1033 (times10S s.1) && decide (s.2.2.2.1 - 1 > Int64.ofInt (toI c_DECIMAL_MAX_EXPON_128)))
+def lG (s : LState) : LState :=
+  (times10S s.1, { w0 := s.1.w0 <<< 1, w1 := s.1.w1 <<< 1 ||| s.1.w0 >>> 63 },
+    { w0 := s.1.w0 <<< 3, w1 := s.1.w1 <<< 3 ||| s.1.w0 >>> 61 }, s.2.2.2.1 - 1, s.2.2.2.2.1 - 1, true)
+def lH (s : LState) : LState :=
+  (times10S s.1, { w0 := s.1.w0 <<< 1, w1 := s.1.w1 <<< 1 ||| s.1.w0 >>> 63 },
+    { w0 := s.1.w0 <<< 3, w1 := s.1.w1 <<< 3 ||| s.1.w0 >>> 61 }, s.2.2.2.1 - 1, s.2.2.2.2.1 - 1, s.2.2.2.2.2)
+
+theorem i32_sub1 (a : Int32) : (a - 1).toInt = PackH.wrapI32 (a.toInt - 1) := by
+  rw [i32_sub]; rfl
+
+/-- what the padding loop computes: from a coefficient `1 ≤ C < 10^33` and an exponent sum `E > 12287` it stops after
+`j ≥ 1` turns, at the first `j` with `C·10^j ≥ 10^33` or `E − j ≤ 12287`, always through `break` -/
+theorem doIter_spec (k : Nat) : ∀ (s : LState), 1 ≤ bitsOf s.1 → bitsOf s.1 < 10 ^ 33 → 10 ^ 33 ≤ bitsOf s.1 * 10 ^ k →
+    12287 < s.2.2.2.1.toInt → s.2.2.2.2.1.toInt = PackH.wrapI32 s.2.2.2.1.toInt →
+    ∃ (j : Nat) (c' c2 c8 : U128) (E' : Int64) (e' : Int32), doIter lBrk lG lH k s = (c', c2, c8, E', e', true) ∧
+      1 ≤ j ∧ bitsOf c' = bitsOf s.1 * 10 ^ j ∧ E'.toInt = s.2.2.2.1.toInt - j ∧ e'.toInt = PackH.wrapI32 E'.toInt ∧
+      bitsOf s.1 * 10 ^ (j - 1) < 10 ^ 33 ∧ 12287 ≤ E'.toInt ∧
+      ¬ (bitsOf c' < 10 ^ 33 ∧ 12287 < E'.toInt) := by
+  induction k with
+  | zero => intro s h1 h2 h3; simp at h3; omega
+  | succ k ih =>
+    intro s h1 h2 h3 h4 h5
+    obtain ⟨c, c2, c8, E, e, b⟩ := s
+    simp only at h1 h2 h3 h4 h5
+    have hE := E.le_toInt
+    have hE1 : (E - 1).toInt = E.toInt - 1 := e64_sub1 E (by omega)
+    have hc1 : bitsOf (times10S c) = 10 * bitsOf c := times10S_val c (by omega)
+    have he1 : (e - 1).toInt = PackH.wrapI32 (E - 1).toInt := by
+      rw [i32_sub1, h5, hE1]; unfold PackH.wrapI32; omega
+    unfold doIter
+    by_cases hb : lBrk (c, c2, c8, E, e, b) = true
+    · rw [if_pos hb]
+      refine ⟨1, _, _, _, _, _, rfl, le_refl _, ?_, ?_, he1, ?_, ?_, ?_⟩
+      · simp only [hc1]; omega
+      · simp only [hE1]; omega
+      · simpa using h2
+      · simp only [hE1]; omega
+      · unfold lBrk at hb
+        simp only [Bool.not_eq_true', Bool.and_eq_false_iff, lt1033_iff, decide_eq_false_iff_not, d_gtmax, hE1, hc1] at hb
+        simp only [hE1, hc1]
+        omega
+    · rw [if_neg hb]
+      unfold lBrk at hb
+      simp only [Bool.not_eq_true', Bool.not_eq_false, Bool.and_eq_true, lt1033_iff, decide_eq_true_eq, d_gtmax, hE1, hc1] at hb
+      have h3' : 10 ^ 33 ≤ bitsOf (times10S c) * 10 ^ k := by
+        rw [hc1]; rw [Nat.pow_succ] at h3
+        calc 10 ^ 33 ≤ bitsOf c * (10 ^ k * 10) := h3
+          _ = 10 * bitsOf c * 10 ^ k := by ring
+      have hl1 : (lH (c, c2, c8, E, e, b)).1 = times10S c := rfl
+      have hl2 : (lH (c, c2, c8, E, e, b)).2.2.2.1 = E - 1 := rfl
+      have hl3 : (lH (c, c2, c8, E, e, b)).2.2.2.2.1 = e - 1 := rfl
+      obtain ⟨j, c', d2, d8, E', e', hit, hj, hbits, hEe, hee, hprev, hge, hstop⟩ :=
+        ih (lH (c, c2, c8, E, e, b))
+          (by rw [hl1, hc1]; exact Nat.le_trans h1 (Nat.le_mul_of_pos_left _ (by decide)))
+          (by rw [hl1, hc1]; exact hb.1)
+          (by rw [hl1]; exact h3') (by rw [hl2, hE1]; exact hb.2) (by rw [hl2, hl3]; exact he1)
+      rw [hl1] at hbits hprev
+      rw [hl2] at hEe
+      refine ⟨j + 1, c', d2, d8, E', e', hit, by omega, ?_, ?_, hee, ?_, hge, hstop⟩
+      · rw [hbits, hc1, Nat.pow_succ]; ring
+      · rw [hEe, hE1]; push_cast; omega
+      · simp only [Nat.add_sub_cancel]
+        have : bitsOf (times10S c) * 10 ^ (j - 1) < 10 ^ 33 := hprev
+        rw [hc1] at this
+        obtain ⟨i, rfl⟩ : ∃ i, j = i + 1 := ⟨j - 1, by omega⟩
+        simp only [Nat.add_sub_cancel] at this
+        rw [Nat.pow_succ]
+        calc bitsOf c * (10 ^ i * 10) = 10 * bitsOf c * 10 ^ i := by ring
+          _ < 10 ^ 33 := this
+
+/-- the body of the translated padding loop, in the form `simp` leaves it -/
+theorem loop_body2 (s : LState) :
+    (if (!((decide ((add128U { w0 := s.1.w0 <<< 1, w1 := s.1.w1 <<< 1 ||| s.1.w0 >>> 63 }
+                      { w0 := s.1.w0 <<< 3, w1 := s.1.w1 <<< 3 ||| s.1.w0 >>> 61 }).w1 < 54210108624275) ||
+              (add128U { w0 := s.1.w0 <<< 1, w1 := s.1.w1 <<< 1 ||| s.1.w0 >>> 63 }
+                      { w0 := s.1.w0 <<< 3, w1 := s.1.w1 <<< 3 ||| s.1.w0 >>> 61 }).w1 == 54210108624275 &&
+                decide ((add128U { w0 := s.1.w0 <<< 1, w1 := s.1.w1 <<< 1 ||| s.1.w0 >>> 63 }
+                        { w0 := s.1.w0 <<< 3, w1 := s.1.w1 <<< 3 ||| s.1.w0 >>> 61 }).w0 < 4089650035136921600)) &&
+            decide (s.2.2.2.1 - 1 > Int64.ofInt (toI c_DECIMAL_MAX_EXPON_128)))) = true then
+        (Except.ok (ForInStep.done
+          (add128U { w0 := s.1.w0 <<< 1, w1 := s.1.w1 <<< 1 ||| s.1.w0 >>> 63 }
+              { w0 := s.1.w0 <<< 3, w1 := s.1.w1 <<< 3 ||| s.1.w0 >>> 61 },
+            { w0 := s.1.w0 <<< 1, w1 := s.1.w1 <<< 1 ||| s.1.w0 >>> 63 },
+            { w0 := s.1.w0 <<< 3, w1 := s.1.w1 <<< 3 ||| s.1.w0 >>> 61 }, s.2.2.2.1 - 1, s.2.2.2.2.1 - 1, true))
+          : Except String (ForInStep LState))
+      else
+        Except.ok (ForInStep.yield
+          (add128U { w0 := s.1.w0 <<< 1, w1 := s.1.w1 <<< 1 ||| s.1.w0 >>> 63 }
+              { w0 := s.1.w0 <<< 3, w1 := s.1.w1 <<< 3 ||| s.1.w0 >>> 61 },
+            { w0 := s.1.w0 <<< 1, w1 := s.1.w1 <<< 1 ||| s.1.w0 >>> 63 },
+            { w0 := s.1.w0 <<< 3, w1 := s.1.w1 <<< 3 ||| s.1.w0 >>> 61 }, s.2.2.2.1 - 1, s.2.2.2.2.1 - 1, s.2.2.2.2.2)))
+      = .ok (if lBrk s = true then ForInStep.done (lG s) else ForInStep.yield (lH s)) := by
+  unfold lBrk lG lH lt1033 times10S
+  split <;> rfl
+
+/-- S6: non-zero coefficient below 10^33, exponent sum `E > 12287`: the loop pads `j ≥ 1` zeros, stopping at the first
+`j` with `C·10^j ≥ 10^33` or `E − j = 12287`; in the latter case the padded coefficient is packed at the maximum
+exponent, otherwise `bid_get_BID128` is called with exponent `0x7fffffff` -/
+theorem scn_over_pad (x : U128) (n : Int32) (m : RoundingMode) (r sg : UInt64) (ex : Int32) (co : U128)
+    (hu : unpack_BID128_value 0 0 default x = .ok (r, sg, ex, co)) (hr : (r == 0) = false)
+    (hex : 0 ≤ ex.toInt ∧ ex.toInt ≤ 12287) (h0 : ex.toInt + n.toInt > 12287) (hc0 : 1 ≤ bitsOf co)
+    (hc : bitsOf co < 10 ^ 33) :
+    ∃ (j : Nat) (c' : U128) (e' : Int32), 1 ≤ j ∧ bitsOf c' = bitsOf co * 10 ^ j ∧
+      bitsOf co * 10 ^ (j - 1) < 10 ^ 33 ∧ 12287 ≤ ex.toInt + n.toInt - j ∧
+      ¬ (bitsOf c' < 10 ^ 33 ∧ 12287 < ex.toInt + n.toInt - j) ∧
+      bid128_scalbn_clear_status x n m 0 =
+        (if ex.toInt + n.toInt - j ≤ 12287 then
+          .ok (⟨c'.w0, sg ||| UInt64.ofInt (toI (Int32.ofInt 12287)) <<< 49 ||| c'.w1⟩, 0)
+         else bid_get_BID128 sg 2147483647 c' m 0) := by
+  have a1 := n.toInt_lt; have a2 := n.le_toInt
+  have ht := u32_test (Int64.ofInt (toI ex) + Int64.ofInt (toI n)) (by rw [e64_toInt]; omega) (by rw [e64_toInt]; omega)
+  rw [e64_toInt] at ht
+  have ht' : decide (UInt32.ofInt (toI (Int32.ofInt (toI (Int64.ofInt (toI ex) + Int64.ofInt (toI n)))))
+      ≤ UInt32.ofInt (toI c_DECIMAL_MAX_EXPON_128)) = false := by
+    rw [ht, decide_eq_false_iff_not]; omega
+  have hg : decide (Int64.ofInt (toI ex) + Int64.ofInt (toI n) > Int64.ofInt (toI c_DECIMAL_MAX_EXPON_128)) = true := by
+    rw [d_gtmax, e64_toInt, decide_eq_true_eq]; omega
+  have hlt : lt1033 co = true := by rw [lt1033_iff, decide_eq_true_eq]; exact hc
+  unfold lt1033 at hlt
+  -- the loop
+  have h33 : 10 ^ 33 ≤ bitsOf co * 10 ^ 4096 := by
+    have : (10 : Nat) ^ 33 ≤ 10 ^ 4096 := Nat.pow_le_pow_right (by decide) (by decide)
+    calc 10 ^ 33 ≤ 10 ^ 4096 := this
+      _ = 1 * 10 ^ 4096 := (Nat.one_mul _).symm
+      _ ≤ bitsOf co * 10 ^ 4096 := Nat.mul_le_mul_right _ hc0
+  obtain ⟨j, c', c2, c8, E', e', hit, hj, hbits, hE, he, hprev, hge, hstop⟩ :=
+    doIter_spec 4096 (co, default, default, Int64.ofInt (toI ex) + Int64.ofInt (toI n),
+      Int32.ofInt (toI (Int64.ofInt (toI ex) + Int64.ofInt (toI n))), false) hc0 hc h33
+      (by show 12287 < (Int64.ofInt (toI ex) + Int64.ofInt (toI n)).toInt; rw [e64_toInt]; omega)
+      (e32_toInt _)
+  simp only [e64_toInt] at hE
+  refine ⟨j, c', e', hj, hbits, hprev, by rw [← hE]; exact hge, by rw [← hE]; exact hstop, ?_⟩
+  unfold bid128_scalbn_clear_status
+  simp only [hu, hr, ht', hg, hlt, bind, Except.bind, pure, Except.pure, set_status_flags, very_fast_eq,
+    Bool.false_eq_true, if_false, if_true, add_128_128_eq]
+  rw [forIn_range_dowhile 4096 _ lBrk lG lH (fun _ s => loop_body2 s), hit]
+  simp only [Bool.not_true, Bool.false_eq_true, if_false, d_lemax, hE]
+  by_cases hle : ex.toInt + n.toInt - j ≤ 12287
+  · have he12 : e' = Int32.ofInt 12287 := by
+      rw [← Int32.toInt_inj, he, hE]
+      have : ex.toInt + n.toInt - (j : Int) = 12287 := by rw [← hE] at hle ⊢; omega
+      rw [this]; rfl
+    simp only [hle, decide_true, if_true, he12]
+  · simp only [hle, decide_false, Bool.false_eq_true, if_false]
+    cases bid_get_BID128 sg 2147483647 c' m 0 <;> rfl
+
+/-! ## 2. `bid_get_BID128` delivers the canonical encoding of `finish` -/
+
+theorem some_pair_inj {α β} {a a' : α} {b b' : β} (h : some (a, b) = some (a', b')) : a = a' ∧ b = b' := by
+  injection h with h; injection h with h1 h2; exact ⟨h1, h2⟩
+
+theorem bits_of_decode (b : Nat) (D' D : Datum) (hW : D'.WF) (hb : b = encode D') (hd : decode b = D) : b = encode D := by
+  rw [hb] at hd ⊢
+  rw [decode_encode hW] at hd
+  rw [hd]
+
+/-- the model's `bid_get_BID128` (clear status word on entry) returns the canonical encoding of `finish`'s datum, and its
+flags -/
+theorem get_bits_finish (sgn : Nat) (e : Int) (c0 c1 : Nat) (mode : Mode) (hs : sgn = 0 ∨ sgn = 2 ^ 63)
+    (hc0 : c0 < 2 ^ 64) (hc1 : c1 < 2 ^ 64) (hC0 : 0 < c0 + 2 ^ 64 * c1) (hC : c0 + 2 ^ 64 * c1 ≤ 10 ^ 34)
+    (he : -2147483648 ≤ e) (he' : e < 2147483647) :
+    ∃ r f, PackH.get_BID128 sgn e (c0, c1) mode 0 = some (r, f) ∧
+      bits r = encode (finish mode (decide (sgn ≠ 0)) (c0 + 2 ^ 64 * c1) 1 (e - 6176) (e - 6176)).1 ∧
+      f = (finish mode (decide (sgn ≠ 0)) (c0 + 2 ^ 64 * c1) 1 (e - 6176) (e - 6176)).2 := by
+  obtain ⟨r, f, hget, hfin⟩ := C13PackHelpers.get_eq_finish sgn e c0 c1 mode hs hc0 hc1 hC0 hC he he'
+  have hd : decode (bits r) = (finish mode (decide (sgn ≠ 0)) (c0 + 2 ^ 64 * c1) 1 (e - 6176) (e - 6176)).1 :=
+    congrArg Prod.fst hfin
+  have hf : f = (finish mode (decide (sgn ≠ 0)) (c0 + 2 ^ 64 * c1) 1 (e - 6176) (e - 6176)).2 := congrArg Prod.snd hfin
+  refine ⟨r, f, hget, ?_, hf⟩
+  have hn := norm34_lt (c0 + 2 ^ 64 * c1) e hC
+  -- canonicity, regime by regime
+  rcases lt_trichotomy (norm34 (c0 + 2 ^ 64 * c1) e).2 0 with hlt | heq | hgt
+  · obtain ⟨r', mm, hget', _, hb, hdd⟩ :=
+      get_underflow_decode sgn e c0 c1 mode 0 hs hc0 hc1 hC he he' hlt (Or.inl (by omega))
+    have h1 := (some_pair_inj (hget.symm.trans hget')).1
+    subst h1
+    have hW : (Datum.fin (decide (sgn ≠ 0)) mm eMin).WF := by rw [← hdd]; exact decode_WF _
+    exact bits_of_decode _ _ _ hW hb hd
+  · obtain ⟨r', hget', hb⟩ := get_in_range sgn e c0 c1 mode 0 hs hc0 hc1 hC (by omega) (by omega)
+    have h1 := (some_pair_inj (hget.symm.trans hget')).1
+    subst h1
+    exact bits_of_decode _ _ _ (fin_WF _ _ _ hn (by omega) (by omega)) hb hd
+  · by_cases hin : (norm34 (c0 + 2 ^ 64 * c1) e).2 ≤ 12287
+    · obtain ⟨r', hget', hb⟩ := get_in_range sgn e c0 c1 mode 0 hs hc0 hc1 hC (by omega) hin
+      have h1 := (some_pair_inj (hget.symm.trans hget')).1
+      subst h1
+      exact bits_of_decode _ _ _ (fin_WF _ _ _ hn (by omega) hin) hb hd
+    · obtain ⟨hA, hB⟩ := get_overflow sgn e c0 c1 mode 0 hs hc0 hc1 hC he he' (by omega)
+      by_cases hpad : (norm34 (c0 + 2 ^ 64 * c1) e).1 * 10 ^ ((norm34 (c0 + 2 ^ 64 * c1) e).2 - 12287).toNat < 10 ^ 34
+      · obtain ⟨r', hget', hb⟩ := hA hpad
+        have h1 := (some_pair_inj (hget.symm.trans hget')).1
+        subst h1
+        exact bits_of_decode _ _ _ (by simp only [Datum.WF, P34_eq', eMin, eMax]; omega) hb hd
+      · obtain ⟨r', hget', hb⟩ := hB hpad
+        have h1 := (some_pair_inj (hget.symm.trans hget')).1
+        subst h1
+        refine bits_of_decode _ _ _ ?_ hb hd
+        cases mode <;> cases hdd : decide (sgn ≠ 0) <;> simp [overflowResult, Datum.WF, P34, eMin, eMax]
+
+open Dec.C06GenFromInt (ofBits ofBits_bitsOf bitsOf_ofBits) in
+/-- from the model's words to the `U128` -/
+theorem eq_ofBits (res : U128) (r : PackH.U128) (h : pr res = r) : res = ofBits (bits r) := by
+  rw [← h]
+  exact (ofBits_bitsOf res).symm
+
+theorem u32_eq_ofNat (fl : UInt32) (f : Nat) (h : fl.toNat = f) : fl = UInt32.ofNat f := by
+  rw [← h, UInt32.ofNat_toNat]
+
+open Dec.C06GenFromInt (ofBits) in
+/-- `bid_get_BID128` (translated) from a clear status word, as an equation: the canonical encoding of `finish`'s datum and
+its flags -/
+theorem get_code_finish (sg : UInt64) (e : Int32) (c : U128) (m : RoundingMode)
+    (hs : sg = 0 ∨ sg = 0x8000000000000000) (hC0 : 0 < bitsOf c) (hC : bitsOf c ≤ 10 ^ 34) (he : e.toInt < 2147483647) :
+    bid_get_BID128 sg e c m 0 =
+      .ok (ofBits (encode (finish (md m) (decide (sg ≠ 0)) (bitsOf c) 1 (e.toInt - 6176) (e.toInt - 6176)).1),
+           UInt32.ofNat (finish (md m) (decide (sg ≠ 0)) (bitsOf c) 1 (e.toInt - 6176) (e.toInt - 6176)).2) := by
+  obtain ⟨hs', hd⟩ := sgn_cases sg hs
+  rw [bitsOf_eq c] at hC0 hC ⊢
+  obtain ⟨r, f, hmod, hb, hf⟩ := get_bits_finish sg.toNat e.toInt c.w0.toNat c.w1.toNat (md m) hs'
+    c.w0.toNat_lt c.w1.toNat_lt hC0 hC e.le_toInt he
+  obtain ⟨res, fl, hcode, hp, hq⟩ := get_bridge sg e c m 0 r f hmod
+  rw [hcode, eq_ofBits res r hp, u32_eq_ofNat fl f hq, hb, hf, hd]
+
+/-- the model's `bid_get_BID128` at the exponent `0x7fffffff` (what scalbn passes on overflow), for a non-zero coefficient
+below 10^34: the overflow result -/
+theorem get_model_max (sgn c0 c1 : Nat) (mode : Mode) (f : Nat) (hC0 : 0 < c0 + 2 ^ 64 * c1)
+    (hC : c0 + 2 ^ 64 * c1 < 10 ^ 34) (hc0 : c0 < 2 ^ 64) :
+    PackH.get_BID128 sgn 2147483647 (c0, c1) mode f =
+      some (if mode = .rtz ∨ (sgn ≠ 0 ∧ mode = .rup) ∨ (sgn = 0 ∧ mode = .rdn)
+              then (0x378d8e63ffffffff, sgn ||| 0x5fffed09bead87c0) else (0, sgn ||| 0x7800000000000000),
+            f ||| (fOverflow ||| fInexact)) := by
+  unfold PackH.get_BID128
+  have hne : ¬ (c1 = 0x0001ed09bead87c0 ∧ c0 = 0x378d8e6400000000) := by
+    intro h; rw [h.1, h.2] at hC; exact absurd hC (by decide)
+  have hnz : ¬ (c1 ||| c0 = 0) := by rw [Nat.or_eq_zero_iff]; omega
+  rw [if_neg hne]
+  simp only
+  rw [if_neg (show ¬ ((0 : Int) ≤ 2147483647 ∧ (2147483647 : Int) ≤ 12287) by decide),
+    if_neg (show ¬ ((2147483647 : Int) < 0) by decide),
+    if_neg (show ¬ ((2147483647 : Int) - 34 ≤ 12287) by decide)]
+  simp only
+  rw [if_pos (show (2147483647 : Int) > 12287 by decide), if_neg hnz]
+  split <;> rfl
+
+open Dec.C06GenFromInt (ofBits) in
+/-- `bid_get_BID128` (translated) with exponent `0x7fffffff`: the overflow result, overflow and inexact -/
+theorem get_code_max (sg : UInt64) (c : U128) (m : RoundingMode)
+    (hs : sg = 0 ∨ sg = 0x8000000000000000) (hC0 : 0 < bitsOf c) (hC : bitsOf c < 10 ^ 34) :
+    bid_get_BID128 sg 2147483647 c m 0 =
+      .ok (ofBits (encode (overflowResult (md m) (decide (sg ≠ 0)))), UInt32.ofNat (fOverflow ||| fInexact)) := by
+  obtain ⟨hs', hd⟩ := sgn_cases sg hs
+  rw [bitsOf_eq c] at hC0 hC
+  have hmod := get_model_max sg.toNat c.w0.toNat c.w1.toNat (md m) 0 hC0 hC c.w0.toNat_lt
+  obtain ⟨res, fl, hcode, hp, hq⟩ := get_bridge sg 2147483647 c m 0 _ _ hmod
+  rw [hcode, eq_ofBits res _ hp, u32_eq_ofNat fl _ hq]
+  have := overflow_words sg.toNat (md m) hs'
+  rw [this, hd, Nat.zero_or]
+
 end Dec.C11GenScale
